@@ -34,11 +34,12 @@ TYPES = {
     "u8": "uint8_t", "i8": "int8_t", "char": "char", "byte": "std::byte", "u16": "uint16_t", "i16": "int16_t",
     "u32": "uint32_t", "i32": "int32_t", "u64": "uint64_t", "i64": "int64_t", "f32": "float", "f64": "double",
     "ptr": "int*", "bool": "bool", "enumE": "vf::EnumE", "B3": "vf::B3", "B12": "vf::B12", "M8": "vf::Mod8",
+    "B5": "vf::B5", "B6": "vf::B6", "B20": "vf::B20", "B24": "vf::B24",
     "Tr4": "vf::Tracked<4>", "Tr8": "vf::Tracked<8>", "Tr24": "vf::Tracked<24>", "TrMv8": "vf::Tracked<8, false>",
     "str": "std::string", "uptr": "std::unique_ptr<int>",
 }
 SIZES = {"u8": 1, "i8": 1, "char": 1, "byte": 1, "u16": 2, "i16": 2, "u32": 4, "i32": 4, "u64": 8, "i64": 8, "f32": 4,
-         "f64": 8, "ptr": 8, "bool": 1, "enumE": 1, "B3": 3, "B12": 12, "M8": 1, "Tr4": 4, "Tr8": 8, "Tr24": 24, "TrMv8": 8,
+         "f64": 8, "ptr": 8, "bool": 1, "enumE": 1, "B3": 3, "B12": 12, "B5": 5, "B6": 6, "B20": 20, "B24": 24, "M8": 1, "Tr4": 4, "Tr8": 8, "Tr24": 24, "TrMv8": 8,
          "str": 32, "uptr": 8}
 NONTRIVIAL = {"Tr4", "Tr8", "Tr24", "TrMv8", "str", "uptr"}
 MOVEONLY = {"TrMv8", "uptr"}
@@ -103,6 +104,8 @@ KINDS = {
     "s000": (0, 0, 0, 0, 0), "s001": (0, 0, 0, 1, 0), "s010": (0, 0, 1, 0, 0), "s011": (0, 0, 1, 1, 0),
     "s100": (0, 1, 0, 0, 0), "s101": (0, 1, 0, 1, 0), "s110": (0, 1, 1, 0, 0), "s111": (0, 1, 1, 1, 0),
     "s000d": (0, 0, 0, 0, 1), "s111d": (0, 1, 1, 1, 1),
+    # always-equal allocators whose instances carry a label outside operator==
+    "e000": (1, 0, 0, 0, 0, 1), "e100": (1, 1, 0, 0, 0, 1), "e010": (1, 0, 1, 0, 0, 1), "e001": (1, 0, 0, 1, 0, 1), "e111": (1, 1, 1, 1, 0, 1),
 }
 
 
